@@ -53,7 +53,13 @@ def node(g, p):
 
 def nodeset(g, p, kmax=None):
     k = g.randint(0, min(p, kmax if kmax is not None else p))
-    return set(g.sample(range(p), k))
+    s = g.sample(range(p), k)
+    r = g.random()
+    if r < 0.15:
+        return set(np.int64(i) for i in s)        # numpy integers, as np.where / pa() / ch() hand them out
+    if r < 0.25:
+        return frozenset(s)
+    return set(s)
 
 
 def disjoint_sets(g, p, n=3):
